@@ -20,6 +20,9 @@ PKG = "lnwallet"
 FILES = ["lnwallet/verif_chan_test.go"]
 TEST = "^TestVerifChan$"
 WARM = [{"pkg": PKG, "files": FILES}]
+CORPUS_DIR = os.path.join(os.path.dirname(os.path.dirname(os.path.abspath(__file__))),
+                          "corpus", "chan")
+CORPUS_BASE = 1000000        # case numbers of corpus / script rows start here
 PARTIES = ("a", "b")
 RESOLVE = ("settle", "fail", "malformed")
 
@@ -64,10 +67,13 @@ def iter_chan_rows(trace):
 
 
 def run_chan_harness(ctx, env=None, suffix="", timeout=1500, race=False, report=True,
-                     stream=False):
+                     stream=False, corpus=True):
     """Run TestVerifChan on the tree under test (VERIF_REPO aware through lib.verif).
     env: VERIF_SEED/VERIF_TIER/VERIF_CASES/VERIF_CHAN_TYPES/VERIF_CRASH/VERIF_CUT/
     VERIF_MAXSTEPS/VERIF_FIRST_CASE/VERIF_CHAN_SCRIPT/VERIF_CHAN_FREE_REV.
+    corpus=True (default): the explicit schedules of every /verif/corpus/chan/*.json are
+    run FIRST in the same test process (VERIF_CHAN_CORPUS); their rows come first, have
+    "script": true, "corpus": "<file>#<i>", "expect_last" and case >= CORPUS_BASE.
     Returns the list of cases (or a generator with stream=True).  rc/trace/log of the
     run are left in run_chan_harness.last.  With report=True a failed run is reported
     as ctx.violation("harness_failed", ...)."""
@@ -75,6 +81,8 @@ def run_chan_harness(ctx, env=None, suffix="", timeout=1500, race=False, report=
     if ctx is not None:
         e["VERIF_SEED"] = ctx.seed
         e["VERIF_TIER"] = ctx.tier
+    if corpus and os.path.isdir(CORPUS_DIR):
+        e["VERIF_CHAN_CORPUS"] = CORPUS_DIR
     if env:
         e.update(env)
     uid = (ctx.uid() if ctx is not None else "chan") + suffix
@@ -525,18 +533,10 @@ def no_errors(row):
 
 
 def known_signature(row):
-    """Signature string (for known_findings.json matching) of a failure that is a
-    known genuine lnd defect, else None.
-    'fee-updates-restored-out-of-order': restoreStateLogs re-inserts the pending
-    CommitDiff's updates before the older remoteUnsignedLocalUpdates, evaluateHTLCView takes
-    the last FeeUpdate in LIST order (corpus/chan/fee_restore_order.json).
-    (The former 'fee-update-lost-on-restart-before-first-revoke' defect,
-    corpus/chan/fresh_fee_restart.json, is repaired in /repo: it is a regression corpus
-    now and is deliberately NOT recognised here.)"""
-    for i, st in enumerate(row["steps"]):
-        for _w, _p, d in _step_dumps(i, st):
-            if d.get("own_fee_sorted") is False or d.get("peer_fee_sorted") is False:
-                return "fee-updates-restored-out-of-order"
+    """Signature of a failure that is a registered, still OPEN lnd defect, else None.
+    Both defects found with this harness (corpus/chan/fresh_fee_restart.json,
+    corpus/chan/fee_restore_order.json) are repaired in /repo, so nothing is recognised:
+    every predicate failure is a violation."""
     return None
 
 
@@ -634,6 +634,30 @@ def drained(row):
     return []
 
 
+def corpus_expect(row):
+    """Corpus / script rows: the result class of the LAST step is the recorded one
+    ("ok" for regression scripts, the failure class for API-hazard witnesses)."""
+    if not row.get("script") or row.get("expect_last") is None:
+        return []
+    last = row["steps"][-1]["res"] if row["steps"] else None
+    if last != row["expect_last"]:
+        return ["%s: last step %s ended with %r, expected %r"
+                % (row.get("corpus"), row["steps"][-1]["op"] if row["steps"] else None,
+                   last, row["expect_last"])]
+    if row["expect_last"] == "ok":
+        bad = [(i, st["op"], st["res"]) for i, st in enumerate(row["steps"])
+               if st["res"] != "ok" and not (st.get("extra") or {}).get("mal")]
+        if bad:
+            return ["%s: step %d %s -> %s in a script expected to pass" % ((row.get("corpus"),) + bad[0])]
+    return []
+
+
+def expected_failure(row):
+    """True for a corpus row that documents a failing schedule (API-level hazard outside
+    the protocol-following schedules): only corpus_expect applies to it."""
+    return bool(row.get("script")) and row.get("expect_last") not in (None, "ok")
+
+
 PREDICATES = [
     ("conservation", conservation_case),
     ("mirror", mirror_case),
@@ -646,6 +670,7 @@ PREDICATES = [
     ("reload_consistent", reload_consistent),
     ("logs_ordered", logs_ordered),
     ("drained", drained),
+    ("corpus_expect", corpus_expect),
 ]
 
 
@@ -654,6 +679,8 @@ def all_predicates(row, only=None):
     out = {}
     for name, fn in PREDICATES:
         if only and name not in only:
+            continue
+        if expected_failure(row) and name != "corpus_expect":
             continue
         f = fn(row)
         if f:
